@@ -731,8 +731,15 @@ impl Session {
     }
     fn reply(&self) -> String {
         let pc = self.interp.program_counter();
-        // the check the planned hook inside `Interpreter::step` would make
-        if pc >= self.interp.bytecode.len() {
+        // the check the planned hook inside `Interpreter::step` would make: a pointer that will be dereferenced
+        // again (the frame continues) is inside the buffer; after a halting instruction it may be one past the end
+        // (STOP in the last padding byte), never further
+        let continues = matches!(
+            self.interp.instruction_result,
+            InstructionResult::Continue | InstructionResult::CallOrCreate
+        );
+        let len = self.interp.bytecode.len();
+        if (continues && pc >= len) || pc > len {
             return "oob-code".into();
         }
         let mut s = state_str(&self.interp);
